@@ -12,6 +12,10 @@ package main
 //   - Download writes the object through WriterAt in chunks, first chunk
 //     first and the others in any order (s3manager.Downloader is concurrent);
 //     here: 1-byte chunks, the rest in reverse order;
+//   - an armed transfer fault (failNextDownload(j)): the next Download of an
+//     existing object writes at most j chunks and then fails with the SDK's
+//     generic transfer error (code "RequestError", not a not-found code), as a
+//     connection reset in the middle of a GetObject body does;
 //   - ListObjectsV2 returns keys in lexicographic order, only keys with the
 //     given string prefix, at most MaxKeys per page, IsTruncated +
 //     NextContinuationToken when keys remain, and resumes strictly after the
@@ -23,6 +27,7 @@ package main
 
 import (
 	"encoding/hex"
+	"errors"
 	"fmt"
 	"io"
 	"sort"
@@ -41,10 +46,29 @@ type fakeS3 struct {
 	objs   map[string][]byte
 	short  bool // truncated pages hold fewer keys than MaxKeys
 	pages  int  // number of ListObjectsV2 page requests served
+	// failAfter >= 0: the next Download of an existing object fails after that
+	// many chunks were written (one-shot; -1 = no fault armed)
+	failAfter int
+	faults    int // transfer faults delivered
 }
 
 func newFakeS3(bucket string, short bool) *fakeS3 {
-	return &fakeS3{bucket: bucket, objs: map[string][]byte{}, short: short}
+	return &fakeS3{bucket: bucket, objs: map[string][]byte{}, short: short, failAfter: -1}
+}
+
+// failNextDownload arms a one-shot transfer fault (see the header).
+func (f *fakeS3) failNextDownload(afterChunks int) {
+	f.mu.Lock()
+	f.failAfter = afterChunks
+	f.mu.Unlock()
+}
+
+// disarm removes a fault that was not delivered; reports how many were.
+func (f *fakeS3) disarm() int {
+	f.mu.Lock()
+	defer f.mu.Unlock()
+	f.failAfter = -1
+	return f.faults
 }
 
 func normKey(k string) string { return strings.TrimLeft(k, "/") }
@@ -77,10 +101,16 @@ func (f *fakeS3) Download(w io.WriterAt, in *s3.GetObjectInput, _ ...func(*s3man
 	}
 	b, ok := f.objs[normKey(aws.StringValue(in.Key))]
 	b = append([]byte{}, b...)
+	failAfter := -1
+	if ok && f.failAfter >= 0 {
+		failAfter, f.failAfter = f.failAfter, -1
+		f.faults++
+	}
 	f.mu.Unlock()
 	if !ok {
 		return 0, awserr.NewRequestFailure(awserr.New(s3.ErrCodeNoSuchKey, "The specified key does not exist.", nil), 404, "fake")
 	}
+	transferFault := awserr.New("RequestError", "send request failed", errors.New("read: connection reset by peer (injected)"))
 	var n int64
 	order := []int{}
 	if len(b) > 0 {
@@ -89,12 +119,18 @@ func (f *fakeS3) Download(w io.WriterAt, in *s3.GetObjectInput, _ ...func(*s3man
 	for i := len(b) - 1; i >= 1; i-- {
 		order = append(order, i)
 	}
-	for _, i := range order {
+	for done, i := range order {
+		if failAfter >= 0 && done >= failAfter {
+			return n, transferFault
+		}
 		k, err := w.WriteAt(b[i:i+1], int64(i))
 		n += int64(k)
 		if err != nil {
 			return n, err
 		}
+	}
+	if failAfter >= 0 {
+		return n, transferFault
 	}
 	return n, nil
 }
